@@ -290,7 +290,10 @@ def r5(ctx, R):
     en = ctx.func("NonThreadedExecutor.eval_node")
     cfg = en.cfg
     th = [n for n in cfg.nodes if n.kind == "test" and q.mentions_call(n.ast, "has_node")]
-    R.need(th, "has_node test not found in eval_node")
+    if not th:
+        R.inst("eval_node: membership test present")
+        R.bad(en, en.node, "eval_node has no has_node(key) membership test", stmt="has_node")
+        return
     for t in th:
         R.inst("eval_node: `%s` only after is_cached" % norm(t.ast))
         if not any(tt.endswith(".is_cached") and l == "T" for tt, l in q.guards_of(en, t.ast)):
